@@ -704,7 +704,7 @@ pub fn run(tier: Tier, replay: Option<String>) -> i32 {
         ctx.machinery(&format!("interposition self-test failed: {}", e));
         return ctx.finish();
     }
-    let (max_calls, max_bound, all_shorts) = if tier.thorough() { (8, 5, true) } else { (6, 4, true) };
+    let (max_calls, max_bound, all_shorts) = if tier.thorough() { (10, 7, true) } else { (6, 4, true) };
     if let Some(r) = ctx.replay_of.clone() {
         let c = &r["case"];
         let case = match Case::from_json(&c["case"]) {
